@@ -165,7 +165,14 @@ def parse_mir(text, vtext=None, crate=None):
         except Exception:
             continue
         b.crate = crate
-        bodies.setdefault(b.name, b)   # first wins (runtime MIR before CTFE MIR)
+        if b.name not in bodies:
+            bodies[b.name] = b            # first wins (runtime MIR before CTFE MIR)
+        elif bodies[b.name].header != b.header:
+            # macro-generated impls share one span and therefore one printed name: keep every distinct signature
+            k = 2
+            while '%s#%d' % (b.name, k) in bodies and bodies['%s#%d' % (b.name, k)].header != b.header:
+                k += 1
+            bodies.setdefault('%s#%d' % (b.name, k), b)
     return bodies
 
 
